@@ -4891,7 +4891,9 @@ namespace awkward {
     else {
       const std::vector<ssize_t> shape(std::next(shape_.begin()), shape_.end());
       const std::vector<ssize_t> strides(std::next(strides_.begin()), strides_.end());
-      builder.beginlist();
+      if (include_beginendlist) {
+        builder.beginlist();
+      }
       for (int64_t i = 0;  i < length();  i++) {
         ssize_t byteoffset = byteoffset_ + strides_[0]*((ssize_t)i);
         NumpyArray numpy(Identities::none(),
@@ -4906,7 +4908,9 @@ namespace awkward {
                          ptr_lib_);
         numpy.tojson_boolean(builder, true);
       }
-      builder.endlist();
+      if (include_beginendlist) {
+        builder.endlist();
+      }
     }
   }
 
@@ -4945,7 +4949,9 @@ namespace awkward {
     else {
       const std::vector<ssize_t> shape(std::next(shape_.begin()), shape_.end());
       const std::vector<ssize_t> strides(std::next(strides_.begin()), strides_.end());
-      builder.beginlist();
+      if (include_beginendlist) {
+        builder.beginlist();
+      }
       for (int64_t i = 0;  i < length();  i++) {
         ssize_t byteoffset = byteoffset_ + strides_[0]*((ssize_t)i);
         NumpyArray numpy(Identities::none(),
@@ -4960,7 +4966,9 @@ namespace awkward {
                          ptr_lib_);
         numpy.tojson_integer<T>(builder, true);
       }
-      builder.endlist();
+      if (include_beginendlist) {
+        builder.endlist();
+      }
     }
   }
 
@@ -4988,7 +4996,9 @@ namespace awkward {
     else {
       const std::vector<ssize_t> shape(std::next(shape_.begin()), shape_.end());
       const std::vector<ssize_t> strides(std::next(strides_.begin()), strides_.end());
-      builder.beginlist();
+      if (include_beginendlist) {
+        builder.beginlist();
+      }
       for (int64_t i = 0;  i < length();  i++) {
         ssize_t byteoffset = byteoffset_ + strides_[0]*((ssize_t)i);
         NumpyArray numpy(Identities::none(),
@@ -5003,7 +5013,9 @@ namespace awkward {
                          ptr_lib_);
         numpy.tojson_real<T>(builder, true);
       }
-      builder.endlist();
+      if (include_beginendlist) {
+        builder.endlist();
+      }
     }
   }
 
@@ -5031,7 +5043,9 @@ namespace awkward {
     else {
       const std::vector<ssize_t> shape(std::next(shape_.begin()), shape_.end());
       const std::vector<ssize_t> strides(std::next(strides_.begin()), strides_.end());
-      builder.beginlist();
+      if (include_beginendlist) {
+        builder.beginlist();
+      }
       for (int64_t i = 0;  i < length();  i++) {
         ssize_t byteoffset = byteoffset_ + strides_[0]*((ssize_t)i);
         NumpyArray numpy(Identities::none(),
@@ -5046,7 +5060,9 @@ namespace awkward {
                          ptr_lib_);
         numpy.tojson_complex<T>(builder, true);
       }
-      builder.endlist();
+      if (include_beginendlist) {
+        builder.endlist();
+      }
     }
   }
 
@@ -5064,7 +5080,9 @@ namespace awkward {
     else {
       const std::vector<ssize_t> shape(std::next(shape_.begin()), shape_.end());
       const std::vector<ssize_t> strides(std::next(strides_.begin()), strides_.end());
-      builder.beginlist();
+      if (include_beginendlist) {
+        builder.beginlist();
+      }
       for (int64_t i = 0;  i < length();  i++) {
         ssize_t byteoffset = byteoffset_ + strides_[0]*((ssize_t)i);
         NumpyArray numpy(Identities::none(),
@@ -5079,7 +5097,9 @@ namespace awkward {
                          ptr_lib_);
         numpy.tojson_string(builder, true);
       }
-      builder.endlist();
+      if (include_beginendlist) {
+        builder.endlist();
+      }
     }
   }
 
